@@ -99,11 +99,37 @@ ROUND3 = {
  "C20": ("/tmp/out3-C20", ["C20", "C05"], "C20 expectations now come from the user's pipeline completed with the documented defaults (not from the configuration the code stored), and margin-bearing parameters are left out in a quarter of the draws",
          "bilateral check_conf updates a class-level defaults dict in place", "bilateral filter without sigma_space checked after another one with an explicit sigma_space in the same process"),
 }
-ROUND3B = {}
+ROUND3B = {
+ "C01": ("/tmp/out3-C01b", ["C01", "C15"], "", "the per-scale loop of pandora.run leaves the scale only when the step is literally named 'multiscale'", "suffixed multiscale step (multiscale.xxx) followed by another step"),
+ "C08": ("/tmp/out3-C08b", ["C08", "C04"], "", "matching_cost_prepare builds the right validity mask with the right image's own mask where the left one belongs", "validation + a masked area at least as wide as the disparity interval (or touching the border)"),
+}
+ROUND4 = {
+ "C01": ("/tmp/out4-C01", ["C01"], "C01 accept and exec shards (and C12, C20) draw free-form suffixes: 'filter.v1.6', 'filter.second_pass-1' (the documentation allows any string after the first dot); this also exposed the repository defect fixed by b4edce1",
+         "the check loop treats a step as suffixed only when its name holds exactly one dot", "suffixed step whose suffix contains a dot (filter.1.5)"),
+ "C02": ("/tmp/out4-C02", ["C02"], "C02 gained zncc (subpix 1) pairs whose no-data pixels hold NaN samples, as API-built datasets may", "compute_mean_raster sums rows with cumsum instead of nancumsum", "zncc + NaN samples on pixels flagged no-data (datasets built through the API)"),
+ "C03": ("/tmp/out4-C03", ["C03"], "C03 synthetic volumes hold a few genuinely infinite (worst) costs in a fifth of the cases", "to_disp restores the NaN costs from np.isinf after the arg-min", "cost volume with infinite costs"),
+ "C04": ("/tmp/out4-C04", ["C04"], "C04's ownership monitor now gives the steps after the disparity step no bit of the cost volume's own flags", "to_disp shares the validity-mask array between the cost volume and the disparity dataset (deepcopy dropped)", "a later flag-raising step, then the cost volume's flags read again (second disparity computation from the same volume)"),
+ "C05": ("/tmp/out4-C05", ["C05"], "", "FixedZoomPyramid.check_conf merges the user's values into a class-level defaults dict", "multiscale step with explicit non-default values checked before one that omits them, in one process"),
+ "C06": ("/tmp/out4-C06", ["C06"], "", "subpixel_refinement derives the sub-pixel factor from the spacing of the first two disparity samples", "cost volume with a single disparity sample (interval [d, d])"),
+ "C07": ("/tmp/out4-C07", ["C07"], "", "the NaN -> inf conversion of the second map tests the wrong operand", "NaN in the other map at the correspondent of a valid pixel (invalid_disparity NaN)"),
+ "C08": ("/tmp/out4-C08", ["C08", "C07"], "", "cross-checking converts NaN to inf in place on both maps (nan_to_num copy=False)", "invalid_disparity NaN + cross-checking + an invalid pixel"),
+ "C09": ("/tmp/out4-C09", ["C09", "C11"], "C11 gained intervals wider than the image (C09 reported it unchanged)", "cbca leaves the loop over disparities at the first one without overlap (break for continue)", "cbca + interval whose negative end leaves the image"),
+ "C10": ("/tmp/out4-C10", ["C10"], "", "bilateral spatial kernel centred on the geometric centre of the window", "even window width (sigma_space 1, 3, 5 or an image smaller than the nominal width with an even side)"),
+ "C11": ("/tmp/out4-C11", ["C11"], "C11 gained smooth scenes with cbca_distance 9/12/17 (support regions of more than 256 pixels), one directed case per shard", "cbca counts the pixels of a region in a uint8 array", "support region of 256 pixels or more (cbca_distance >= 9 on a smooth area)"),
+ "C12": ("/tmp/out4-C12", ["C12", "C19"], "same mechanism as C19-2; C12 now runs the checked configuration a second time on a fresh machine and compares the band names and values", "cost_volume_confidence_run appends the step suffix to the indicator already stored in the configuration", "suffixed confidence step executed more than once with the same configuration object (second run, multiscale, saved configuration fed back)"),
+ "C13": ("/tmp/out4-C13", ["C13"], "C13 gained one directed case per shard with cbca_distance 1 (or 2) on images with masks on both sides", "cross_support starts the top arm at col - 1: top arm 0 where the pixel above is masked", "cbca_distance 1 + a masked pixel above a valid one + vertical flip"),
+ "C14": ("/tmp/out4-C14", ["C14"], "", "sgm mismatch -> occlusion conversion reads the mask it is writing (propagates in scan order)", "occlusion, mismatch, mismatch chain along the scan order"),
+ "C15": ("/tmp/out4-C15", ["C15", "C08"], "same mechanism as C08-2", "run_prepare downscales the user interval with floor division", "interval bound that is not a multiple of the total zoom"),
+ "C16": ("/tmp/out4-C16", ["C16"], "", "add_no_data writes -9999 in every band of a pixel that has a NaN/inf sample in one band", "multiband image + NaN/inf nodata + non-finite sample in some bands only"),
+ "C17": ("/tmp/out4-C17", ["C17"], "", "the second check_disparities_from_input call receives the left disparity again", "well-formed left grid + malformed right grid"),
+ "C18": ("/tmp/out4-C18", ["C18", "C06"], "C18 pipelines gained a second refinement step after the filters (a third of the cases); C06 compares every random case with its rows and columns reversed (per-pixel rule)", "loop_refinement keeps its 'stopped' state across the pixels of a thread chunk", "refinement of non-sample disparities (second refinement) right after a stopped pixel; chunking differs with the thread count"),
+ "C19": ("/tmp/out4-C19", ["C19"], "C19 draws invalid_disparity 'inf' / '-inf' as well", "save_config writes both infinities as 'inf'", "invalid_disparity -inf through the command line"),
+ "C20": ("/tmp/out4-C20", ["C20"], "C20 step cases use suffixed step names (all steps, or the matching cost only) in four suffix styles", "filter margins read the step from pipeline_cfg['matching_cost'] literally", "suffixed matching_cost step + step != 1 (pandora2d) + a filter"),
+}
 def main():
     table = json.load(open(sys.argv[1])) if len(sys.argv) > 1 else None
     items = [(pid, 1, v) for pid, v in ROUND1.items()] + [(pid, 2, v) for pid, v in ROUND2.items()] + [(pid, 3, v) for pid, v in ROUND3.items()]
-    items += [(pid, "3b", v) for pid, v in ROUND3B.items()]
+    items += [(pid, "3b", v) for pid, v in ROUND3B.items()] + [(pid, 4, v) for pid, v in ROUND4.items()]
     for pid, rnd, (src, caught, strengthened, what, needs) in items:
         name = f"{pid}-{rnd}"
         dst = os.path.join(V, "seeded", name)
@@ -116,7 +142,7 @@ def main():
         if os.path.exists(vf):
             ver = json.load(open(vf))
         meta = {
-            "property": pid, "name": name, "origin": "independent sub-agent given only the property text and a scratch worktree" + (" (second round: also shown the first-round patch, to avoid repeating it)" if rnd == 2 else "") + (" (third round: shown the two earlier patches, asked for another mechanism: step interactions, state between calls, copy/view, dtype, coordinates)" if str(rnd).startswith("3") else ""),
+            "property": pid, "name": name, "origin": "independent sub-agent given only the property text and a scratch worktree" + (" (second round: also shown the first-round patch, to avoid repeating it)" if rnd == 2 else "") + (" (third round: shown the two earlier patches, asked for another mechanism: step interactions, state between calls, copy/view, dtype, coordinates)" if str(rnd).startswith("3") else "") + (" (fourth round: shown the three earlier patches, asked for less-travelled paths: non-default parameters, domain extremes, two entry points, dtypes, coordinates, NaN/inf, a step present twice)" if rnd == 4 else ""),
             "change": what, "needs_to_manifest": needs,
             "confirmed_by_me": {
                 "patch_applies_to_repo_HEAD": ver.get("patch_applies_to_HEAD"),
